@@ -6,7 +6,7 @@ Local Open Scope N_scope.
    64-bit, ordered bounds; every expression must be accepted by the loader *)
 Definition shipped_ok (s : str) : bool :=
   compliant s &&
-  (if int_domain s then match parse_valid s with Some e => expr_ok e | None => false end else true).
+  (if int_domain s then match parse_vexpr s with Some e => vexpr_ok e | None => false end else true).
 
 Lemma shipped_table_ok : forallb shipped_ok valids = true.
 Proof. vm_compute. reflexivity. Qed.
@@ -15,12 +15,12 @@ Lemma shipped_valids_ok s :
   In s valids ->
   compliant s = true /\
   (int_domain s = true ->
-   exists e, parse_valid s = Some e /\ forall z, int_arg_valid s z = Some (denote_b e z)).
+   exists e, parse_vexpr s = Some e /\ forall z, int_arg_valid s z = Some (denote_v_b e z)).
 Proof.
   intros I. pose proof shipped_table_ok as T. rewrite forallb_forall in T. specialize (T s I).
   unfold shipped_ok in T. apply andb_prop in T as [C P]. split; [exact C|].
-  intros D. rewrite D in P. destruct (parse_valid s) as [e|] eqn:E; [|discriminate].
-  exists e. split; [reflexivity|]. intros z. now apply int_arg_valid_denote_b.
+  intros D. rewrite D in P. destruct (parse_vexpr s) as [e|] eqn:E; [|discriminate].
+  exists e. split; [reflexivity|]. intros z. now apply int_arg_valid_denote_v_b.
 Qed.
 
 Definition n_int_valids : N := N.of_nat (length (filter int_domain valids)).
